@@ -502,6 +502,15 @@ static int c05_cmd (char *line)
   char copy[8192];
   char *tok[16];
   int n;
+  static int file_checked = 0;
+
+  if (!file_checked)
+    {
+      /* an earlier case of this run broke the master FILE on purpose and did not get to put it back (it crashed) */
+      file_checked = 1;
+      if (access ("c05/master.good", F_OK) == 0)
+        (void) rename ("c05/master.good", "c05/master.c");
+    }
 
   if (!strncmp (line, "src ", 4))
     {
